@@ -34,7 +34,7 @@ func main() {
 		}
 		return b
 	}
-	nSuites := len(otp.ListSuites())
+	nSuites := len(otp.VerifKnownSuites()) // not through ListSuites: its first use must happen concurrently below
 	var bad atomic.Int64
 	var firstBad atomic.Value
 	fail := func(f string, a ...any) {
@@ -44,7 +44,7 @@ func main() {
 	}
 	var wg sync.WaitGroup
 	var calls atomic.Int64
-	for _, g := range []int{1, 8, 64} {
+	for _, g := range []int{64, 8, 1} { // the widest fan-out first: first uses of everything overlap
 		stop := make(chan struct{})
 		// adversaries and garbage collections
 		var adv sync.WaitGroup
